@@ -43,6 +43,9 @@ def gen_case(rnd, idx, forced_ctx=None, forced_root=None, n=None):
         pool = rnd.sample(NAME_POOL, n)
         names = [pool[i] if rnd.random() < 0.5 else "%s%dx%d" % (pool[i], idx, i) for i in range(n)]
     kinds = ["enum" if (i > 0 and rnd.random() < 0.2) else "struct" for i in range(n)]
+    # every fifth graph turns some struct nodes into tuple structs (struct Id(pub u32); struct Pair(pub A, pub B);): serde structs too
+    if idx % 5 == 3:
+        kinds = ["tuple" if (k == "struct" and rnd.random() < 0.3) else k for k in kinds]
     edges = {}  # i -> list of (j, ctxlabel, type)
     for i in range(n):
         edges[i] = []
@@ -67,7 +70,7 @@ def gen_case(rnd, idx, forced_ctx=None, forced_root=None, n=None):
         lab, f = forced_ctx if (forced_ctx and r == 0) else rnd.choice(CTX)
         if rk in ("event-struct-expr",):
             lab, f = CTX[0]
-            if kinds[target] == "enum":
+            if kinds[target] in ("enum", "tuple"):
                 rk = "event-typed-param"
         roots.append((target, rk, lab, f(rg.N(names[target]))))
     # error-arm-only type
@@ -88,6 +91,11 @@ def gen_case(rnd, idx, forced_ctx=None, forced_root=None, n=None):
         style = rnd.choice(rg.DERIVE_STYLES)
         if kinds[i] == "enum":
             src = rg.enum_src(names[i], [("A",), ("B",)], derives=derives, derive_style=style)
+        elif kinds[i] == "tuple":
+            src = rg.struct_src(names[i], fields, derives=derives, derive_style=style)
+            body_start = src.index("pub struct %s {" % names[i])
+            elems = [ty for (_, ty) in fields[1:]] or ["u32"]
+            src = src[:body_start] + "pub struct %s(%s);\n\n" % (names[i], ", ".join("pub " + e for e in elems))
         else:
             src = rg.struct_src(names[i], fields, derives=derives, derive_style=style)
         if inline_mods and i % 2 == 1:
@@ -162,7 +170,8 @@ def gen_case(rnd, idx, forced_ctx=None, forced_root=None, n=None):
     info = {"parents": parents, "rootvia": rootvia, "names": names, "kinds": kinds, "nonserde": {names[i] for i in nonserde}, "via": {names[i]: sorted(v) for i, v in via.items()},
             "err_only": err_only, "n": n, "edges": sum(len(v) for v in edges.values()), "files": len(files),
             "has_cycle": any(j <= i for i in edges for (j, _, _) in edges[i]),
-            "all": set(names) | ({err_only} if err_only else set()), "spelling": spelling, "inline": inline_defined}
+            "all": set(names) | ({err_only} if err_only else set()), "spelling": spelling, "inline": inline_defined,
+            "tuple_structs": {names[i] for i in range(n) if kinds[i] == "tuple"}}
     return files, expected, info
 
 
@@ -215,6 +224,10 @@ def run_case(a):
                     continue
                 via = sorted(set(via))
                 where = " defined-in-inline-module" if nm in info["inline"] else ""
+                if nm in info["tuple_structs"]:
+                    # defect model: a tuple struct is never declared, by whatever route it is reached (known finding)
+                    viol.append(("C07 missing tuple-struct-not-declared", "reachable serde tuple struct %s (via %s)%s is not declared in types.ts" % (nm, via, where)))
+                    continue
                 viol.append(("C07 missing via=%s%s" % ("+".join(via[:3]), where), "reachable serde type %s (via %s)%s is not declared in types.ts" % (nm, via, where)))
         for nm, c in got.items():
             if nm not in expected:
@@ -230,7 +243,7 @@ def run_case(a):
             if c > 1:
                 viol.append(("C07 declared-twice", "%s is declared %d times" % (nm, c)))
         r = {"viol": viol, "n": info["n"], "edges": info["edges"], "files": info["files"], "cycle": info["has_cycle"],
-             "expected": len(expected), "decoys": len(info["all"]) - len(expected), "spelling": info["spelling"], "inline": len(info["inline"])}
+             "expected": len(expected), "decoys": len(info["all"]) - len(expected), "spelling": info["spelling"], "inline": len(info["inline"]), "tuples": len(info["tuple_structs"])}
         if viol:
             r["witness"] = proj.witness_of(files, mode, extra={"expected": sorted(expected)})
         return r
@@ -273,6 +286,7 @@ def run(tier):
         v.count("graphs_with_cycles", 1 if r["cycle"] else 0)
         v.count("graphs_with_path-qualified_type_references", 1 if r.get("spelling") else 0)
         v.count("types_defined_in_inline_modules", r.get("inline", 0))
+        v.count("tuple_structs_in_graphs", r.get("tuples", 0))
         v.count("multi_file_graphs", 1 if r["files"] > 1 else 0)
         for (sig, what) in r["viol"]:
             v.violation(sig, "%s mode: %s" % (job[3], what), r.get("witness"))
